@@ -371,7 +371,7 @@ func checkDecodeEntry(r *core.Result, prog *core.Program, lp *packages.Package) 
 				return true
 			}
 			fn := staticCallee(info, c)
-			if fn == nil || (fn.Name() != "decodeWithPool" && fn.Name() != "decode") || len(c.Args) != 1 {
+			if fn == nil || (fn.Name() != "decodeWithPool" && fn.Name() != "decode") || len(c.Args) < 1 {
 				return true
 			}
 			n++
